@@ -247,8 +247,9 @@ impl ProbeSpec {
                 }
                 Step::SendSelf { seq } => {
                     let w = Work::new(&self.trace, u32::MAX, *seq, vec![]);
+                    self.trace.log(Ev::Call { client: u32::MAX, op: "send", arg: *seq });
                     let r = myself.send_message(PMsg::Work(w));
-                    self.trace.log(Ev::Ret { client: u32::MAX, op: "selfsend", arg: *seq, res: r.is_ok() as i64 });
+                    self.trace.log(Ev::Ret { client: u32::MAX, op: "send", arg: *seq, res: r.is_ok() as i64 });
                 }
                 Step::PanicString => {
                     panic!("{}", format!("{PANIC_MARK} panic-string uid={} cb={:?}", self.uid, cb));
